@@ -265,12 +265,16 @@ static void do_ann(const ev::Cmd& c) {
     m.chunk_id = chunk_id(mchunk ? ch : 100 + ch);
     for (size_t i = 0; i < m.chunk_hash.size(); ++i) m.chunk_hash[i] = static_cast<std::uint8_t>(seq + i);
     m.threshold = static_cast<std::uint8_t>(thr);
-    m.total_shares = static_cast<std::uint8_t>(std::max(nsh, thr));
+    m.total_shares = static_cast<std::uint8_t>(c.i("tot", std::max(nsh, thr)));
     const long long now_s = vclock::now_ns() / 1'000'000'000LL;   // manifests expire on whole seconds
     const long long exp_s = now_s + exp_rel;
     m.expires_at = vclock::system_at_s(exp_s);
     std::vector<long long> idx;
-    for (long i = 1; i <= nsh; ++i) {
+    // idx=a,b,c : the manifest carries exactly these share indices (a subset of 1..tot) instead of 1..nsh
+    std::vector<long> carried;
+    if (c.s("idx", "") != "") { std::istringstream ss(c.s("idx", "")); std::string tok; while (std::getline(ss, tok, ',')) carried.push_back(std::atol(tok.c_str())); }
+    else for (long i = 1; i <= nsh; ++i) carried.push_back(i);
+    for (long i : carried) {
         protocol::KeyShard s{};
         s.index = static_cast<std::uint8_t>(i);
         s.value.fill(static_cast<std::uint8_t>(0x30 + i));
@@ -325,7 +329,7 @@ static void do_ann(const ev::Cmd& c) {
 
     ev::Ev e("ann");
     e.i("t", vclock::now_ns() / 1'000'000LL).i("p", p).i("c", ch).i("seq", seq).b("self", self).b("dec", dec).s("uri", uri_kind);
-    if (dec) e.b("chunk", mchunk).i("exp", clip(exp_s * 1000)).i("nsh", nsh).i("thr", thr).ints("idx", idx);
+    if (dec) e.b("chunk", mchunk).i("exp", clip(exp_s * 1000)).i("nsh", static_cast<long long>(carried.size())).i("thr", thr).ints("idx", idx);
     e.ints("asg", asg).b("pow", pow).i("ver", ver).raw("pre", pre).raw("post", post).ints("repB", repB).ints("repA", repA);
     {
         auto guard = TA::lock(*W.node);
